@@ -55,16 +55,13 @@ func parseCIDR(cidr string) (*net.IPNet, error) {
 		return nil, err // Return original CIDR parse error
 	}
 
-	// Convert single IP to CIDR notation
-	if ip.To4() != nil {
-		// IPv4
-		_, ipNet, _ = net.ParseCIDR(cidr + "/32")
-	} else {
-		// IPv6
-		_, ipNet, _ = net.ParseCIDR(cidr + "/128")
+	// A single address is the network holding exactly that address. Build it from the parsed
+	// address, not from the text: "::ffff:10.0.0.1" is an IPv4 address in IPv6 syntax, and
+	// "::ffff:10.0.0.1/32" would be the IPv6 network ::/32
+	if ip4 := ip.To4(); ip4 != nil {
+		return &net.IPNet{IP: ip4, Mask: net.CIDRMask(32, 32)}, nil
 	}
-
-	return ipNet, nil
+	return &net.IPNet{IP: ip, Mask: net.CIDRMask(128, 128)}, nil
 }
 
 // IsAllowed checks if the given IP address is allowed
